@@ -24,7 +24,7 @@ from ..cfg import CFG, fmt_path
 from ..dataflow import local_defs, names_in, derives
 from ..effects import effects_of, reachable, all_effects
 from ..statefields import exposed_and_written
-from .common import calls_to, site, key, stmt_of, enclosing
+from .common import kwarg, calls_to, site, key, stmt_of, enclosing
 
 RQ = 'gnpy.topology.request'
 WU = 'gnpy.tools.worker_utils'
@@ -169,7 +169,8 @@ def r3_redesign(ctx):
                   'seen by later requests')
     pl = repo.func(WU, 'planning')
     pc = [c for c in calls_to(pl, {'compute_path_with_disjunction'})]
-    ok = bool(pc) and any(k.arg == 'redesign' and isinstance(k.value, ast.Name) and k.value.id == 'redesign' for k in pc[0].keywords)
+    rv = kwarg(pc[0], 'redesign') if pc else None
+    ok = isinstance(rv, ast.Name) and rv.id == 'redesign' and 'redesign' in pl.params
     ctx.check('R3.redesign', site(pl), ok, key(pl, 'redesign-passthrough'),
               'planning does not hand its redesign flag through unchanged')
     ctx.need('R3.redesign', 2)
